@@ -1,0 +1,7 @@
+//go:build verif
+
+package mux
+
+// VerifChunks returns the demuxer's internal chunk list (read-only view for the
+// /verif correspondence harness; compiled only with -tags verif).
+func (d *Demuxer) VerifChunks() []Chunk { return d.chunks }
